@@ -1,0 +1,20 @@
+//go:build verif
+
+package csproto
+
+// Hooks for the external verification harness (/verif). Compiled only with the "verif" build tag;
+// they add observation points and never change behaviour.
+
+// VerifOffset returns the encoder's current write offset.
+func (e *Encoder) VerifOffset() int {
+	return e.offset
+}
+
+// VerifResetMsgTypeCache empties the message type cache so that the first-use classification of a
+// type can be exercised repeatedly.
+func VerifResetMsgTypeCache() {
+	unmarshalMap.Range(func(k, _ interface{}) bool {
+		unmarshalMap.Delete(k)
+		return true
+	})
+}
